@@ -16,6 +16,7 @@ import (
 	"log"
 	"math/rand/v2"
 	"net/http"
+	"runtime"
 	"runtime/debug"
 	"sort"
 	"strings"
@@ -420,6 +421,13 @@ type Result struct {
 // Run executes a plan inside a synctest bubble and evaluates the oracles armed for plan.Property.
 func Run(t *testing.T, plan *Plan) (res *Result) {
 	silenceLogs()
+	// sync.Pool contents (in the library or its dependencies) survive from one simulated run to the next and are dropped by
+	// the garbage collector at instants the simulator does not control. Two collections empty every pool before a run and no
+	// collection happens during it, so that pool reuse inside a run is a function of the plan.
+	oldGC := debug.SetGCPercent(-1)
+	runtime.GC()
+	runtime.GC()
+	defer debug.SetGCPercent(oldGC)
 	res = &Result{Plan: plan}
 	func() {
 		defer func() {
@@ -1100,6 +1108,9 @@ func (s *simStorage) enter(ctx context.Context, op string, args ...string) (*Tas
 	fault := ""
 	if t != nil {
 		fault = t.park(op)
+		if fault == "" && t.Msg.FaultAt > 0 && len(t.Calls)+1 == t.Msg.FaultAt && !s.w.healed {
+			fault = t.Msg.FaultKind
+		}
 	}
 	fault = normFault(op, fault)
 	rec := &CallRec{Op: op, Args: args, Fault: fault, SPIdx: -2, UserIdx: -1, KeyVer: -1}
@@ -1130,6 +1141,19 @@ func (s *simStorage) leave(t *Task, rec *CallRec) {
 
 func isErrFault(f string) bool { return f == "err" || f == "abandoned" }
 
+// partial: a user-info call that writes some attributes and then fails.
+func (w *World) partialUser(u *UserCfg, set models.AttributeSetter) {
+	if u.Email != "" {
+		set.SetEmail(u.Email)
+	}
+	if u.Username != "" {
+		set.SetUsername(u.Username)
+	}
+	if u.UID != "" {
+		set.SetUserID(u.UID)
+	}
+}
+
 // normFault maps a plan's fault word onto the kinds that exist for the operation: the key getters
 // know the malformed-record kinds, every other operation can only return an error.
 func normFault(op, fault string) string {
@@ -1138,6 +1162,9 @@ func normFault(op, fault string) string {
 		return ""
 	case "err", "abandoned":
 		return fault
+	}
+	if (op == "SetUserinfoWithUserID" || op == "SetUserinfoWithLoginName") && fault == "partial_err" {
+		return fault // the storage fills in part of the record and then fails
 	}
 	if op == "GetResponseSigningKey" || op == "GetMetadataSigningKey" {
 		switch fault {
@@ -1349,6 +1376,12 @@ func (s *simStorage) SetUserinfoWithUserID(ctx context.Context, applicationID st
 		return errInjected
 	}
 	for i := range s.w.cfg.Users {
+		if s.w.cfg.Users[i].ID == userID && fault == "partial_err" {
+			rec.UserIdx = i
+			s.w.partialUser(&s.w.cfg.Users[i], userinfo)
+			rec.Err = errInjected.Error()
+			return errInjected
+		}
 		if s.w.cfg.Users[i].ID == userID {
 			rec.UserIdx = i
 			rec.Ret = fmt.Sprintf("user%d", i)
@@ -1368,6 +1401,12 @@ func (s *simStorage) SetUserinfoWithLoginName(ctx context.Context, userinfo mode
 		return errInjected
 	}
 	for i := range s.w.cfg.Users {
+		if s.w.cfg.Users[i].LoginName == loginName && fault == "partial_err" {
+			rec.UserIdx = i
+			s.w.partialUser(&s.w.cfg.Users[i], userinfo)
+			rec.Err = errInjected.Error()
+			return errInjected
+		}
 		if s.w.cfg.Users[i].LoginName == loginName {
 			rec.UserIdx = i
 			rec.Ret = fmt.Sprintf("user%d", i)
